@@ -41,9 +41,9 @@ CLAIMS = {
          "Lifted to continuations (C11_matches, by a lockstep simulation of the two match loops): whenever the original's hand-out order equals its listing and ids are unique, ANY sequence of later matches yields the same transactions, remaining quantities, filled lists and final order sets on both levels (statistics aside, which a snapshot does not carry); and (C11_continuations) the same for ANY continuation of adds, cancels, amends, price moves, replaces and matches that does not re-add an id whose stale ticket the original still queues. Tie: E-seq with a forked real level restored from the snapshot and fed the same continuation; differences classified by the driver.",
          "Lean 4 proof (partial) + counterexample by evaluation + differential correspondence on two real levels; known finding", "DESIGN §6 C11"),
  "C03": ("Theorems over the Lean small-step model for EVERY schedule, any number of threads/ops: the inductive invariant CInv (each 64-bit counter = sum over the map + every thread's credit, modulo 2^64; every order id in exactly one place), the supply potential never grows (BInv), hence at every point the stored counters are the exact un-wrapped quantities and at quiescence the aggregates equal the sums over the resting orders (C03_quiescent); and the per-order ledger (C03_ledger, C03_ledger_prefix): for every order id, at every point of every schedule, resting + held by threads + executed + handed back by cancels + discarded hidden (+ amended down) = initial + supplied by adds (+ amended up), with nothing held at quiescence — no unit executed twice, handed to two cancellers, or lost. "
-         "Events of the ledger are counted where they happen in the model; on real executions the same ledger is judged from return values (C03.idOk). Tie: real threads under a deterministic scheduler, event traces compared step by step with the model.",
+         "Events of the ledger are counted where they happen in the model; on real executions the same ledger is judged from return values (C03.idOk). Tie: real threads under a deterministic scheduler, event traces compared step by step with the model. The two semantics are proved equal where both apply (C03_solo_eq_seq, C03_serial): a call run alone by the small-step machine reaches exactly the state and the result of the big-step function, so a serial schedule is a sequential history. E-concx: enumerated two-thread programs under every schedule of a two-context-switch grid.",
          "Lean 4 proof: inductive invariants over an interleaving transition system (45 program-counter kinds), induction over schedules; trace-level correspondence on real threads under a deterministic scheduler", "DESIGN §6 C03, §11.3"),
- "C08": ("Theorems for every schedule: the ticket-cover invariant (every key has a ticket, or a thread owes/holds it), ownership (handed out at most once), and at quiescence the configuration is a well-formed level — so the sequential theorems apply: a draining match exhausts displayed liquidity and leaves exact aggregates (C08_drain). Tie: E-conc traces + a draining match after the join, judged by C08.scan / C06.ok / C01.ok on the real crate.",
+ "C08": ("Theorems for every schedule: the ticket-cover invariant (every key has a ticket, or a thread owes/holds it), ownership (handed out at most once), and at quiescence the configuration is a well-formed level — so the sequential theorems apply: a draining match exhausts displayed liquidity and leaves exact aggregates (C08_drain). Tie: E-conc traces + a draining match after the join, judged by C08.scan / C06.ok / C01.ok on the real crate. C08_drain_is_sequential: that draining match, issued in the interleaved machine by a thread running alone, is the big-step match (Conc.solo_eq_seq).",
          "Lean 4 proof: cover + ownership invariants over all schedules, composition with the sequential termination/exhaustion theorems; E-conc correspondence", "DESIGN §6 C08"),
  "C12": ("Theorem for every schedule and every prefix: the stored counters equal sum over the map + credits (natural numbers, nothing owed) and are bounded by the total ever supplied (< 2^64), so a reader's load, schedulable anywhere, never sees a wrapped value. Tie: the scheduler reads the three aggregates after every single step of every thread; judged by C12.ok.",
          "Lean 4 proof: potential-function bound + congruence invariant over all schedules; E-conc with per-step observation", "DESIGN §6 C12"),
